@@ -3,6 +3,7 @@ package main
 import (
 	"encoding/json"
 	"fmt"
+	"github.com/dcaiafa/lox/verif/internal/px"
 	"sort"
 	"strings"
 	"sync"
@@ -671,6 +672,34 @@ func c03Worker(c *mc.Ctx) {
 				fam = append(fam, vs[int(i)%len(vs)])
 			}
 		}
+	}
+	// Carrier pass: the same grammars on the real runtime with their real tables
+	// and the generic action: every reduction of every sentence pops exactly its
+	// production's terms, the reductions form the derivation tree of the input,
+	// bottom-up and left to right; and the same again with the action of each
+	// reduction parsing another sentence with a parser value of its own.
+	{
+		ws := pipe.NewWorkspace("c03c")
+		r := px.NewRunner(px.NB)
+		for i, g := range fam {
+			b := px.Build(ws, g, px.NB)
+			if b.Status != px.Accepted {
+				continue // verdicts are the compiled pass's business
+			}
+			var st mc.Stats
+			for _, v := range c01Explore(b, r, "c03-family", int64(i), L, L+2, 100, &st) {
+				if v.Property == "C03" {
+					c.Stats.Violate(v)
+				}
+			}
+			c.Stats.Evaluations += st.Evaluations
+			c.Stats.States += st.States
+			c.Stats.Transitions += st.Transitions
+			for k, n := range st.Extra {
+				c.Stats.Add("carrier_"+k, n)
+			}
+		}
+		ws.Close()
 	}
 	const batch = 40
 	var mu sync.Mutex
